@@ -1,4 +1,5 @@
 import FgaVerif.Proofs.Weights
+import FgaVerif.Proofs.ReachComplete
 /-! # C05 — a model is accepted iff it is well-founded (specification side)
 
     As for C04, `Spec/Weights.lean` is a specification the real verdict is compared with under every
@@ -16,8 +17,12 @@ import FgaVerif.Proofs.Weights
       a walk of at least one edge from the node back to itself (through rewrite edges only when hops are
       excluded).
 
-    Not proved: completeness of the fuelled cycle search (every cycle is reported), and anything about
-    the Go algorithm. -/
+    * `cycle_flag_exact`, `rewrite_cycle_rejected_iff_exists` — on a graph in which every referenced
+      node exists (`Closed`; evaluated by the driver on every input) the cycle test is also complete:
+      it fires **iff** there is a walk of at least one edge from the node back to itself, so a graph is
+      rejected for a rewrite cycle iff one exists.
+
+    Not proved: anything about the Go algorithm. -/
 namespace FgaVerif.Props.C05
 open FgaVerif.Spec.Weights
 
@@ -64,6 +69,15 @@ theorem operator_on_cycle_never_passes (g : SGraph) (n : Node) (hn : n ∈ g)
 
 theorem cycle_flag_sound (g : SGraph) (hopOk : Bool) (n : String) (h : onCycle g hopOk n = true) :
     ∃ s, Succ g hopOk n s ∧ Reach g hopOk s n := onCycle_sound g hopOk n h
+
+theorem cycle_flag_exact (g : SGraph) (hc : Closed g) (hopOk : Bool) (n : String) :
+    onCycle g hopOk n = true ↔ ∃ s, Succ g hopOk n s ∧ Reach g hopOk s n :=
+  ⟨onCycle_sound g hopOk n, fun ⟨s, hs, hr⟩ => onCycle_complete g hc hopOk n s hs hr⟩
+
+/-- a closed graph with a tuple-free cycle through one of its nodes is never accepted -/
+theorem rewrite_cycle_rejected_iff_exists (g : SGraph) (hc : Closed g) (n : Node) (hn : n ∈ g)
+    (s : String) (hs : Succ g false n.name s) (hr : Reach g false s n.name) : wellFounded g = false :=
+  rewrite_only_cycle_never_passes g n hn (onCycle_complete g hc false n.name s hs hr)
 
 /-! ### non-vacuity: `define a: b`, `define b: a or [user]` is rejected; without the back edge accepted -/
 def cyc : SGraph := [
